@@ -137,6 +137,7 @@ def scan_assumptions(text):
 
 REPLAY_BIN = os.path.join(WORK, 'replay-target', 'debug', 'cachelito-replay')
 UNIT_FLAVOUR = {'global_cache': 'global', 'thread_local_cache': 'thread', 'async_cache': 'async'}
+DYNAMIC_UNITS = ('global_cache', 'thread_local_cache', 'async_cache', 'wrappers_global', 'wrappers_thread', 'wrappers_async', 'keys')
 
 
 def build_replay():
@@ -151,9 +152,29 @@ def witness_search(prop, unit_names, tier, seed, only_prop=True):
     ok, err = build_replay()
     if not ok:
         return dict(error='replay crate does not build against the current /repo tree: ' + err)
-    flavours = sorted(set(UNIT_FLAVOUR[u] for u in unit_names if u in UNIT_FLAVOUR)) or ['all']
+    flavours = sorted(set(UNIT_FLAVOUR[u] for u in unit_names if u in UNIT_FLAVOUR))
     iters = 200 if tier == 'quick' else 3000
     stats = []
+    if any(u.startswith('wrappers') or u == 'keys' for u in unit_names):
+        # macro level: decorated functions driven through the real macros against uncached twins / counters / predicate logs
+        out = os.path.join(WORK, 'replays', '%s.macro.witness' % prop)
+        # C01 ('never a value stored for other arguments') is also witnessed by a C02 collision
+        mprops = [prop] + (['C02'] if prop == 'C01' else [])
+        try:
+            for mp in mprops:
+                cmd = [REPLAY_BIN, '--macro-search', '--prop', mp, '--seed', str(seed or 1), '--out', out]
+                p = subprocess.run(cmd, capture_output=True, text=True, timeout=120)
+                if p.returncode == 1:
+                    break
+            lines = [l for l in p.stdout.splitlines() if l.startswith('WITNESS') or l.startswith('MACRO-SEARCHED')]
+            stats += ['macro: %s' % l for l in lines]
+            if p.returncode == 1:
+                w = [l for l in lines if l.startswith('WITNESS')]
+                return dict(cmd='see the replay: line below', history=out, line=w[0] if w else '', text=open(out).read() if os.path.exists(out) else '', stats=stats)
+        except subprocess.TimeoutExpired:
+            stats.append('macro: timed out')
+        if not flavours:
+            return dict(none=True, stats=stats, bound='16 macro-level scenarios (adversarial argument tuples, scripted Ok/Err, predicate scripts, manual polling) on functions decorated with the real macros')
     for fl in flavours:
         out = os.path.join(WORK, 'replays', '%s.%s.history' % (prop, fl))
         cmd = [REPLAY_BIN, '--search', '--flavour', fl, '--iters', str(iters), '--seed', str(seed or 1), '--out', out]
@@ -392,7 +413,7 @@ def main(argv):
     if not reported and unreached:
         # functions outside the verifier's reach: a bounded check on the real code stands in (labelled bounded)
         bunits = sorted(set(o.split('/')[0] for o in unreached))
-        if any(u in UNIT_FLAVOUR for u in bunits):
+        if any(u in DYNAMIC_UNITS for u in bunits):
             w = witness_search(prop, bunits, tier, seed)
             bounded = w
             if w.get('history'):
@@ -410,7 +431,7 @@ def main(argv):
         vunits = sorted(set(v['obligation'].split('/')[0] for v in reported))
         if bounded is not None and bounded.get('history'):
             witness = bounded
-        elif any(u in UNIT_FLAVOUR for u in vunits):
+        elif any(u in DYNAMIC_UNITS for u in vunits):
             w = witness_search(prop, vunits, tier, seed)
             if w.get('history'):
                 witness = w
